@@ -217,10 +217,10 @@ fn static_checks<K: Kern<D>, const D: usize>(w: &World<K, D>, s: &Snap, hull: &H
 }
 
 /// every query must report staleness
-fn stale_checks<K: Kern<D>, const D: usize>(w: &World<K, D>, hull: &Hull<K, D>, q: &[f64], ctx: &str, opname: &str, log: &mut CaseLog) {
+fn stale_checks<K: Kern<D>, const D: usize>(w: &World<K, D>, hull: &Hull<K, D>, q: &[f64], ctx: &str, opname: &str, restore_pending: bool, log: &mut CaseLog) {
     let tri = w.dt.as_triangulation();
     let lp = mk_point::<D>(q);
-    let mk = |site: &str, msg: String| Violation::new(ID, "stale_hull_served", site, format!("{ctx}: {msg}")).fact("dim", D as u64).fact("after_op", opname);
+    let mk = |site: &str, msg: String| Violation::new(ID, "stale_hull_served", site, format!("{ctx}: {msg}")).fact("dim", D as u64).fact("after_op", opname).fact("restore_pending", restore_pending);
     log.evals += 1;
     if hull.is_valid_for_triangulation(tri) {
         log.violate(mk("is_valid_for_triangulation", "the triangulation changed after the hull was created but is_valid_for_triangulation() is still true".into()));
@@ -271,6 +271,9 @@ fn run<K: Kern<D>, const D: usize>(case: &Case, log: &mut CaseLog) {
     };
     let s0 = before.clone();
     let fp0 = w.fingerprint(&s0);
+    if std::env::var_os("DVCHECK_DEBUG").is_some() {
+        eprintln!("hull created at generation {}", w.dt.tds().generation());
+    }
     let queries: Vec<Vec<f64>> = {
         let mut q: Vec<Vec<f64>> = case.queries.iter().map(|e| (0..D).map(|j| *e.get(j).unwrap_or(&0) as f64 / 4.0).collect()).collect();
         // centroid of all vertices (inside) and far corners (outside)
@@ -315,19 +318,32 @@ fn run<K: Kern<D>, const D: usize>(case: &Case, log: &mut CaseLog) {
         log.class("static:not_certified(skipped)");
     }
     // staleness part
+    // Some(g): the harness swapped in an older clone and the shared generation counter has not moved since
+    let mut gen_at_restore: Option<u64> = None;
     for (step, op) in case.post.iter().enumerate() {
         let (res, out) = w.apply(&before, op);
         if matches!(out, Outcome::SetPanicked { .. }) {
             return;
         }
         let after = w.snap();
+        if std::env::var_os("DVCHECK_DEBUG").is_some() {
+            eprintln!("post step {step}: {} -> {} generation now {}", res.desc, out.label(), w.dt.tds().generation());
+        }
+        if matches!(out, Outcome::Restored) {
+            gen_at_restore = Some(w.dt.tds().generation());
+        }
+        let restore_pending = gen_at_restore == Some(w.dt.tds().generation());
         let fp = w.fingerprint(&after);
         let changed = fp.vertices != fp0.vertices || fp.cells != fp0.cells || fp.neighbors != fp0.neighbors;
         log.class(format!("post:{}:{}", out.label(), if changed { "changed" } else { "unchanged" }));
         if changed {
             nontrivial = true;
-            stale_checks(&w, &hull, &queries[0], &format!("after post step {step} ({}) -> {}", res.desc, out.label()), out.label(), log);
-            if !log.violations.is_empty() {
+            let n_before = log.violations.len();
+            stale_checks(&w, &hull, &queries[0], &format!("after post step {step} ({}) -> {}", res.desc, out.label()), out.label(), restore_pending, log);
+            // a hull still served after the harness swapped in an older clone (and before the shared
+            // counter moves again) is its own known class; the history continues so that later
+            // mutations are still judged
+            if log.violations.len() > n_before && !restore_pending {
                 return;
             }
         } else if certified && hull.is_valid_for_triangulation(w.dt.as_triangulation()) {
@@ -351,8 +367,8 @@ pub fn exec(case: &Case, log: &mut CaseLog) {
     dispatch_kd!(case.dim, case.robust, run, case, log)
 }
 
-pub const PRE: OpMix = OpMix { insert: 6, remove: 1, flips: 2, repair: 1, setters: 1, clone: 1, adversarial_uuid: false };
-pub const POST: OpMix = OpMix { insert: 6, remove: 4, flips: 6, repair: 3, setters: 1, clone: 1, adversarial_uuid: true };
+pub const PRE: OpMix = OpMix { insert: 6, remove: 1, flips: 2, repair: 1, setters: 1, clone: 3, adversarial_uuid: false };
+pub const POST: OpMix = OpMix { insert: 6, remove: 4, flips: 6, repair: 3, setters: 1, clone: 5, adversarial_uuid: true };
 
 pub fn strategy(dim: usize, max_ops: usize) -> BoxedStrategy<Case> {
     let nmax = match dim {
